@@ -29,7 +29,9 @@ QRAttrs == {"version", "error", "mode", "mask", "designator", "matrix", "is_micr
             "symbol_size", "matrix_iter", "png_data_uri", "svg_data_uri", "svg_inline", "show"}
 BothAttrs == {"save", "terminal"}
 UnknownAttrs == {"nonexistent", "to_nonexistent_plugin", "to_"}
-Attrs == QRAttrs \cup BothAttrs \cup UnknownAttrs
+\* "to_<name>" with a converter <name> registered in the entry point group segno.plugin.converter: a callable bound to the symbol
+PluginAttrs == {"to_installed"}
+Attrs == QRAttrs \cup BothAttrs \cup UnknownAttrs \cup PluginAttrs
 
 Obj(cls, c, n) == [cls |-> cls, content |-> c, n |-> n, keys |-> [k \in 1..n |-> <<c, k, n>>]]
 
@@ -50,7 +52,7 @@ Expected(objs, op) ==
     [] op.name = "contains" -> IF IsSeq(x) THEN BoolStr(ItemIn(x, objs[op.j])) ELSE "TypeError"
     [] op.name = "len" -> IF IsSeq(x) THEN ToString(x.n) ELSE "TypeError"
     [] op.name = "attr" -> IF op.attr \in BothAttrs THEN "present"
-                           ELSE IF op.attr \in QRAttrs /\ (~IsSeq(x) \/ x.n = 1) THEN "present"
+                           ELSE IF op.attr \in QRAttrs \cup PluginAttrs /\ (~IsSeq(x) \/ x.n = 1) THEN "present"
                            ELSE "AttributeError"
     [] op.name = "iter_terminal" -> IF IsSeq(x) THEN "items_in_order" ELSE "single"
 
@@ -82,7 +84,7 @@ EqCongruence == \A i, j \in Idx : ObjEq(objs[i], objs[j]) =>
 SymbolNeverEqualsSequence == \A i, j \in Idx : objs[i].cls # objs[j].cls => ~ObjEq(objs[i], objs[j])
 \* the sequence behaves like QRCode iff it has one item
 DelegationIffSingle == \A i \in Idx : IsSeq(objs[i]) =>
-                         \A a \in QRAttrs : (Expected(objs, [name |-> "attr", i |-> i, j |-> 0, attr |-> a]) = "present") = (objs[i].n = 1)
+                         \A a \in QRAttrs \cup PluginAttrs : (Expected(objs, [name |-> "attr", i |-> i, j |-> 0, attr |-> a]) = "present") = (objs[i].n = 1)
 NeIsNotEq == op.name = "ne" => result # Expected(objs, [op EXCEPT !.name = "eq"])
 Export == op # NoOp => PrintT(<<"VECTOR", ToJson([objs |-> [k \in 1..Len(objs) |-> [cls |-> objs[k].cls, content |-> objs[k].content, n |-> objs[k].n]],
                                                    op |-> op, expect |-> result])>>)
